@@ -178,6 +178,9 @@ pub struct World {
     /// path of its parent position) and waits behind a gate that is Pending `k` times
     pub sched: Option<Sched>,
     pub trace: Mutex<Vec<TraceEv>>,
+    /// (C27, optional) an external gate awaited by every resolver after its world lookup:
+    /// (parent object id, gate key) -> future; `None` = no extra suspension (as before)
+    pub gate_hook: Option<GateHook>,
 }
 
 impl World {
@@ -506,12 +509,19 @@ fn gate_key(ctx: &Context<'_>) -> GateKey {
     (segs, key, (ctx.item.pos.line, ctx.item.pos.column))
 }
 
+/// (C27) externally controlled gate: see `World::gate_hook`
+pub type GateHook = Arc<dyn Fn(u32, &GateKey) -> std::pin::Pin<Box<dyn std::future::Future<Output = ()> + Send>> + Send + Sync>;
+
 /// the resolver body shared by all fields: invocation log, then (with a schedule) start event,
 /// gate, end event
-async fn gated_get(ctx: &Context<'_>, id: u32) -> RVal {
+pub async fn gated_get(ctx: &Context<'_>, id: u32) -> RVal {
     let w = world(ctx);
     let f = ctx.field().name().to_string();
     let rv = w.get(ctx, id, &f);
+    if let Some(h) = &w.gate_hook {
+        let fut = h(id, &gate_key(ctx));
+        fut.await;
+    }
     if let Some(s) = &w.sched {
         let at = gate_key(ctx);
         let k = s.gates.get(&at).copied().unwrap_or(0);
